@@ -320,6 +320,131 @@ pub fn run(ctx: &Ctx) {
                 if sum != a.pt.add(&b.pt).compress() || dif != a.pt.sub(&b.pt).compress() || neg != a.pt.neg().compress() || mul != a.pt.mul(&U::from_u64(3)).compress() || mixed != sum {
                     ctx.violation("group.SubgroupPoint.arith", "subgroup arithmetic", json!({"kind": "subgroup", "a": a.name, "b": b.name}));
                 }
+                // the rest of the wrapper's operator surface: every impl is a separate forwarding body
+                let case = json!({"kind": "subgroup_surface", "a": a.name, "b": b.name});
+                let r = guarded(|| {
+                    let mut bad: Vec<&'static str> = Vec::new();
+                    let enc = |p: &SubgroupPoint| GroupEncoding::to_bytes(p);
+                    let want_sum = a.pt.add(&b.pt).compress();
+                    let want_dif = a.pt.sub(&b.pt).compress();
+                    let mut t = sa;
+                    t += &sb;
+                    if enc(&t) != want_sum {
+                        bad.push("AddAssign<&SubgroupPoint> for SubgroupPoint");
+                    }
+                    let mut t = sa;
+                    t += sb;
+                    if enc(&t) != want_sum {
+                        bad.push("AddAssign<SubgroupPoint>");
+                    }
+                    let mut t = sa;
+                    t -= &sb;
+                    if enc(&t) != want_dif {
+                        bad.push("SubAssign<&SubgroupPoint> for SubgroupPoint");
+                    }
+                    let mut e = a.real;
+                    e += &sb;
+                    if e.compress().0 != want_sum {
+                        bad.push("AddAssign<&SubgroupPoint> for EdwardsPoint");
+                    }
+                    let mut e = a.real;
+                    e -= &sb;
+                    if e.compress().0 != want_dif {
+                        bad.push("SubAssign<&SubgroupPoint> for EdwardsPoint");
+                    }
+                    if (&a.real - &sb).compress().0 != want_dif || (a.real - sb).compress().0 != want_dif {
+                        bad.push("Sub<&SubgroupPoint> for &EdwardsPoint");
+                    }
+                    if enc(&(&sa + &sb)) != want_sum || enc(&(sa + &sb)) != want_sum || enc(&(&sa + sb)) != want_sum {
+                        bad.push("Add reference variants");
+                    }
+                    if enc(&(&sa - &sb)) != want_dif || enc(&(sa - &sb)) != want_dif || enc(&(&sa - sb)) != want_dif {
+                        bad.push("Sub reference variants");
+                    }
+                    let sum3: SubgroupPoint = [sa, sb, sa].iter().sum();
+                    let sum3o: SubgroupPoint = vec![sa, sb, sa].into_iter().sum();
+                    let want3 = a.pt.add(&b.pt).add(&a.pt).compress();
+                    if enc(&sum3) != want3 || enc(&sum3o) != want3 {
+                        bad.push("Sum");
+                    }
+                    let empty: SubgroupPoint = Vec::<SubgroupPoint>::new().iter().sum();
+                    if enc(&empty) != ed::ID.compress() {
+                        bad.push("Sum of nothing");
+                    }
+                    if bool::from(subtle::ConstantTimeEq::ct_eq(&sa, &sb)) != (a.pt == b.pt) || (sa == sb) != (a.pt == b.pt) {
+                        bad.push("ct_eq / ==");
+                    }
+                    let s0 = <SubgroupPoint as subtle::ConditionallySelectable>::conditional_select(&sa, &sb, subtle::Choice::from(0));
+                    let s1 = <SubgroupPoint as subtle::ConditionallySelectable>::conditional_select(&sa, &sb, subtle::Choice::from(1));
+                    if enc(&s0) != a.pt.compress() || enc(&s1) != b.pt.compress() {
+                        bad.push("conditional_select");
+                    }
+                    if bool::from(Group::is_identity(&sa)) != a.pt.is_identity() || enc(&Group::double(&sa)) != a.pt.dbl().compress() {
+                        bad.push("Group::is_identity / double");
+                    }
+                    if bool::from(Group::is_identity(&(sa - sa))) != true || bool::from(Group::is_identity(&(sa + sb))) != a.pt.add(&b.pt).is_identity() {
+                        bad.push("Group::is_identity on results");
+                    }
+                    if EdwardsPoint::from(sa).compress().0 != a.pt.compress() {
+                        bad.push("From<SubgroupPoint> for EdwardsPoint");
+                    }
+                    let mut z = sa;
+                    zeroize::Zeroize::zeroize(&mut z);
+                    if enc(&z) != ed::ID.compress() {
+                        bad.push("zeroize");
+                    }
+                    bad
+                });
+                match r {
+                    Err(e) => ctx.violation("group.SubgroupPoint.surface", &format!("panic: {}", e), case),
+                    Ok(bad) => {
+                        for w in bad {
+                            ctx.violation("group.SubgroupPoint.surface", &format!("{} disagrees with the group law", w), case.clone());
+                        }
+                    }
+                }
+            }
+        }
+    }
+    // EdwardsPoint (any torsion component) +/- SubgroupPoint, and SubgroupPoint * Scalar in both orders
+    {
+        let free: Vec<&c03::Known> = pts.iter().filter(|k| k.aj.as_ref().unwrap().1 == 0).collect();
+        let scs: Vec<U> = alpha::sc_reduced(if quick { 12 } else { 40 });
+        for b in &free {
+            let sb: SubgroupPoint = Option::from(CofactorGroup::into_subgroup(b.real)).unwrap();
+            for k in &pts {
+                ctx.eval(1);
+                let case = json!({"kind": "subgroup_mixed", "a": k.name, "b": b.name});
+                let r = guarded(|| ((&k.real + &sb).compress().0, (k.real + sb).compress().0, (&k.real - &sb).compress().0));
+                match r {
+                    Err(e) => ctx.violation("group.SubgroupPoint.mixed", &format!("panic: {}", e), case),
+                    Ok((x, y, z)) => {
+                        if x != k.pt.add(&b.pt).compress() || y != x || z != k.pt.sub(&b.pt).compress() {
+                            ctx.violation("group.SubgroupPoint.mixed", "EdwardsPoint +/- SubgroupPoint disagrees with the group law", case);
+                        }
+                    }
+                }
+            }
+            for x in &scs {
+                ctx.eval(1);
+                let rs = real::scalar(x);
+                let case = json!({"kind": "subgroup_mul", "point": b.name, "scalar": x.hex()});
+                let r = guarded(|| {
+                    let mut t = sb;
+                    t *= &rs;
+                    let mut t2 = sb;
+                    t2 *= rs;
+                    (GroupEncoding::to_bytes(&(&sb * &rs)), GroupEncoding::to_bytes(&(&rs * &sb)), GroupEncoding::to_bytes(&(sb * rs)), GroupEncoding::to_bytes(&(rs * sb)), GroupEncoding::to_bytes(&t), GroupEncoding::to_bytes(&t2))
+                });
+                let want = b.pt.mul(x).compress();
+                match r {
+                    Err(e) => ctx.violation("group.SubgroupPoint.mul", &format!("panic: {}", e), case),
+                    Ok(t) => {
+                        if [t.0, t.1, t.2, t.3, t.4, t.5].iter().any(|e| *e != want) {
+                            ctx.violation("group.SubgroupPoint.mul", "SubgroupPoint * Scalar disagrees with [k]P", case);
+                        }
+                    }
+                }
             }
         }
     }
